@@ -131,3 +131,206 @@ Proof.
   intros o l H. unfold refs_in. apply sumf_zero. intros x Hx. unfold all_none in H. rewrite forallb_forall in H.
   specialize (H x Hx). destruct x; [discriminate|reflexivity].
 Qed.
+
+(* ------------------------------------------------------------------ shapes of pending work *)
+
+Definition is_frame (a : act) : bool := match a with ARel _ _ | ASlabDel _ => true | _ => false end.
+
+Definition single_ok (a : act) : Prop :=
+  match a with
+  | AUncount _ | AIncSwap _ _ _ _ | ADec _ | APoolObt _ | ADrain => True
+  | _ => False
+  end.
+
+Inductive shape : list act -> Prop :=
+| sh_frames : forall fr, forallb is_frame fr = true -> shape fr
+| sh_store : forall fr l v, forallb is_frame fr = true -> shape (fr ++ [AStore l v])
+| sh_inc1 : forall o src l, shape [AInc o src; AStore l (Some (o, true))]
+| sh_inc2 : forall o src l, shape [AInc o src; AUnref l; AStore l (Some (o, true))]
+| sh_unref1 : forall l, shape [AUnref l]
+| sh_unref2 : forall l v, shape [AUnref l; AStore l v]
+| sh_single : forall a, single_ok a -> shape [a].
+
+Lemma frames_no_debt : forall o fr, forallb is_frame fr = true -> sumf (act_debt o) fr = 0 /\ sumf (act_unit o) fr = 0.
+Proof.
+  induction fr as [|a fr IH]; cbn; intros H; auto.
+  apply andb_true_iff in H. destruct H as (Ha & Hf). destruct (IH Hf) as (E1 & E2).
+  destruct a; cbn in Ha; try discriminate; cbn; auto.
+Qed.
+
+Lemma shape_net : forall o todo, shape todo -> sumf (act_debt o) todo <= sumf (act_unit o) todo.
+Proof.
+  intros o todo H. destruct H as [fr Hf|fr l v Hf|q src l|q src l|l|l v|a Ha].
+  - destruct (frames_no_debt o fr Hf). lia.
+  - rewrite !sumf_app. destruct (frames_no_debt o fr Hf). cbn. lia.
+  - cbn. unfold eq1. destruct (q =? o); lia.
+  - cbn. unfold eq1. destruct (q =? o); lia.
+  - cbn. lia.
+  - cbn. lia.
+  - destruct a; cbn in Ha; try tauto; cbn; try lia.
+Qed.
+
+(* ------------------------------------------------------------------ the invariant *)
+
+Section Inv.
+Variable K : nat.
+
+Definition hobj (s : state) (o : nat) : obj := get_obj (s_heap s) o.
+Definition thr (s : state) (t : nat) : thread := nth t (s_thr s) dthr.
+
+Definition wloc_ok (h : list obj) (stk : list ref) (l : rloc) : Prop :=
+  match l with
+  | RStk i => i < length stk
+  | RMem q j => j < length (o_mem (get_obj h q)) /\ o_cnt (get_obj h q) = 1 /\ exists i, nth i stk None = Some (q, true)
+  end.
+
+Definition not_self (l : rloc) (p : option nat) : Prop :=
+  match l with RMem q _ => p <> Some q | RStk _ => True end.
+
+Definition src_ok (s : state) (stk : list ref) (o : nat) (src : option rloc) : Prop :=
+  match src with
+  | Some (RStk i) => nth i stk None = Some (o, true)
+  | Some (RMem q j) => nth j (o_mem (hobj s q)) None = Some (o, true) /\ exists i, nth i stk None = Some (q, true)
+  | None => is_live (hobj s o) = true /\ o_cnt (hobj s o) = 0 /\ units o s = 1
+  end.
+
+Definition processed_none (ob : obj) (n : nat) : Prop :=
+  forall m, m < n -> nth (rel_index ob m) (o_mem ob) None = None.
+
+Definition act_ok (s : state) (stk : list ref) (a : act) : Prop :=
+  match a with
+  | AInc o src => src_ok s stk o src
+  | AUnref l => wloc_ok (s_heap s) stk l
+  | AUncount l => wloc_ok (s_heap s) stk l
+  | AStore l v => wloc_ok (s_heap s) stk l /\ not_self l (ptr v)
+  | AIncSwap l o c src => wloc_ok (s_heap s) stk l /\ not_self l (Some o) /\ (c = true -> src <> None /\ src_ok s stk o src)
+  | ADec _ => True
+  | ARel o n => is_releasing (hobj s o) = true /\ n <= length (o_mem (hobj s o)) /\ processed_none (hobj s o) n
+  | APoolObt l => wloc_ok (s_heap s) stk l
+  | ADrain => True
+  | ASlabDel _ => True
+  end.
+
+Definition rel_count (o : nat) (a : act) : nat := match a with ARel q _ => eq1 q o | _ => 0 end.
+Definition rels (o : nat) (s : state) : nat := sumf (fun t => sumf (rel_count o) (t_todo t)) (s_thr s).
+
+Definition quiet (ob : obj) : Prop := match o_st ob with Pooled | Dead => all_none (o_mem ob) = true | _ => True end.
+
+Record inv1 (s : state) : Prop := mkInv1 {
+  i_count : forall o, units o s = o_cnt (hobj s o) + debts o s;
+  i_nolive : forall o, is_live (hobj s o) = false -> units o s = 0;
+  i_mem : forall o, o < length (s_heap s) -> length (o_mem (hobj s o)) = K /\ quiet (hobj s o);
+  i_shape : forall t, t < length (s_thr s) -> shape (t_todo (thr s t));
+  i_acts : forall t a, t < length (s_thr s) -> In a (t_todo (thr s t)) -> act_ok s (t_stk (thr s t)) a;
+  i_rels : forall o, rels o s = if is_releasing (hobj s o) then 1 else 0;
+  i_ghost : forall o, o < length (s_heap s) -> o_births (hobj s o) = o_deaths (hobj s o) + (if is_live (hobj s o) then 1 else 0)
+}.
+
+(* ------------------------------------------------------------------ what the count bounds *)
+
+Definition slots (o : nat) (s : state) : nat :=
+  sumf (fun t => refs_in o (t_stk t)) (s_thr s) + sumf (obj_units o) (s_heap s).
+
+Definition net (o : nat) (t : thread) : nat := sumf (act_unit o) (t_todo t) - sumf (act_debt o) (t_todo t).
+
+Lemma sumf_plus : forall A (f g : A -> nat) l, sumf (fun x => f x + g x) l = sumf f l + sumf g l.
+Proof. induction l as [|h t IH]; cbn; auto. rewrite IH; lia. Qed.
+
+Lemma shapes_all : forall s, (forall t, t < length (s_thr s) -> shape (t_todo (thr s t))) ->
+  forall th, In th (s_thr s) -> shape (t_todo th).
+Proof.
+  intros s H th Hin. apply In_nth with (d := dthr) in Hin. destruct Hin as (t & Ht & E). rewrite <- E. apply H; auto.
+Qed.
+
+Lemma count_bound : forall s o, inv1 s ->
+  o_cnt (hobj s o) = slots o s + sumf (net o) (s_thr s).
+Proof.
+  intros s o I. pose proof (i_count s I o) as HC. unfold units, debts in HC.
+  assert (E : sumf (thr_units o) (s_thr s) = sumf (fun t => refs_in o (t_stk t)) (s_thr s) + sumf (fun t => sumf (act_unit o) (t_todo t)) (s_thr s)).
+  { unfold thr_units. apply sumf_plus. }
+  assert (E2 : sumf (fun t => sumf (act_unit o) (t_todo t)) (s_thr s) = sumf (net o) (s_thr s) + sumf (thr_debts o) (s_thr s)).
+  { rewrite <- sumf_plus. apply sumf_ext. intros th Hin. unfold net, thr_debts.
+    pose proof (shape_net o (t_todo th) (shapes_all s (i_shape s I) th Hin)). lia. }
+  unfold slots. lia.
+Qed.
+
+Lemma cnt_ge_slots : forall s o, inv1 s -> slots o s <= o_cnt (hobj s o).
+Proof. intros s o I. rewrite (count_bound s o I). lia. Qed.
+
+Lemma live_of_units : forall s o, inv1 s -> 1 <= units o s -> is_live (hobj s o) = true.
+Proof.
+  intros s o I H. destruct (is_live (hobj s o)) eqn:E; auto. pose proof (i_nolive s I o E). lia.
+Qed.
+
+Lemma slots_le_units : forall s o, slots o s <= units o s.
+Proof.
+  intros s o. unfold slots, units. assert (sumf (fun t => refs_in o (t_stk t)) (s_thr s) <= sumf (thr_units o) (s_thr s)).
+  { apply sumf_le. intros; unfold thr_units; lia. }
+  lia.
+Qed.
+
+(* a counting reference in a stack slot *)
+Lemma stk_slot : forall s t i o, t < length (s_thr s) -> nth i (t_stk (thr s t)) None = Some (o, true) -> 1 <= slots o s.
+Proof.
+  intros s t i o Ht H. unfold slots.
+  pose proof (sumf_nth_le _ (fun t => refs_in o (t_stk t)) (s_thr s) t dthr Ht) as Hle. cbn beta in Hle.
+  pose proof (refs_in_nth o _ i H). unfold thr in H0. lia.
+Qed.
+
+(* a counting reference in a member slot *)
+Lemma mem_slot : forall s q j o, nth j (o_mem (hobj s q)) None = Some (o, true) -> 1 <= slots o s.
+Proof.
+  intros s q j o H. unfold slots.
+  assert (Hq : q < length (s_heap s)).
+  { destruct (lt_dec q (length (s_heap s))); auto. unfold hobj, get_obj in H. rewrite (nth_overflow (s_heap s)) in H by lia.
+    cbn in H. destruct j; discriminate. }
+  pose proof (sumf_nth_le _ (obj_units o) (s_heap s) q dobj Hq) as Hle.
+  pose proof (refs_in_nth o _ j H). unfold obj_units at 1 in Hle. unfold hobj, get_obj in H0. lia.
+Qed.
+
+Lemma stk_mem_slots : forall s t i q j o, t < length (s_thr s) ->
+  nth i (t_stk (thr s t)) None = Some (o, true) -> nth j (o_mem (hobj s q)) None = Some (o, true) -> 2 <= slots o s.
+Proof.
+  intros s t i q j o Ht H1 H2. unfold slots.
+  pose proof (sumf_nth_le _ (fun t => refs_in o (t_stk t)) (s_thr s) t dthr Ht) as Hle. cbn beta in Hle.
+  pose proof (refs_in_nth o _ i H1). unfold thr in H.
+  assert (Hq : q < length (s_heap s)).
+  { destruct (lt_dec q (length (s_heap s))); auto. unfold hobj, get_obj in H2. rewrite (nth_overflow (s_heap s)) in H2 by lia.
+    cbn in H2. destruct j; discriminate. }
+  pose proof (sumf_nth_le _ (obj_units o) (s_heap s) q dobj Hq) as Hle2.
+  pose proof (refs_in_nth o _ j H2). unfold obj_units at 1 in Hle2. unfold hobj, get_obj in H0. lia.
+Qed.
+
+Lemma stk_stk_slots : forall s t u i i' o, t < length (s_thr s) -> u < length (s_thr s) -> t <> u ->
+  nth i (t_stk (thr s t)) None = Some (o, true) -> nth i' (t_stk (thr s u)) None = Some (o, true) -> 2 <= slots o s.
+Proof.
+  intros s t u i i' o Ht Hu Hne H1 H2. unfold slots.
+  pose proof (sumf_nth2_le _ (fun t => refs_in o (t_stk t)) (s_thr s) t u dthr Ht Hu Hne) as Hle. cbn beta in Hle.
+  pose proof (refs_in_nth o _ i H1). pose proof (refs_in_nth o _ i' H2). unfold thr in *. lia.
+Qed.
+
+Lemma stk_stk_same_slots : forall s t i i' o, t < length (s_thr s) -> i <> i' ->
+  nth i (t_stk (thr s t)) None = Some (o, true) -> nth i' (t_stk (thr s t)) None = Some (o, true) -> 2 <= slots o s.
+Proof.
+  intros s t i i' o Ht Hne H1 H2. unfold slots.
+  pose proof (sumf_nth_le _ (fun t => refs_in o (t_stk t)) (s_thr s) t dthr Ht) as Hle. cbn beta in Hle.
+  pose proof (refs_in_nth2 o _ i i' Hne H1 H2). unfold thr in *. lia.
+Qed.
+
+Lemma mem_mem_slots : forall s q q' j j' o, (q <> q' \/ j <> j') ->
+  nth j (o_mem (hobj s q)) None = Some (o, true) -> nth j' (o_mem (hobj s q')) None = Some (o, true) -> 2 <= slots o s.
+Proof.
+  intros s q q' j j' o Hne H1 H2. unfold slots.
+  assert (Hq : forall q j, nth j (o_mem (hobj s q)) None = Some (o, true) -> q < length (s_heap s)).
+  { intros q0 j0 H. destruct (lt_dec q0 (length (s_heap s))); auto. unfold hobj, get_obj in H. rewrite (nth_overflow (s_heap s)) in H by lia.
+    cbn in H. destruct j0; discriminate. }
+  pose proof (Hq _ _ H1). pose proof (Hq _ _ H2).
+  destruct (Nat.eq_dec q q') as [E|E].
+  - subst q'. assert (j <> j') by tauto.
+    pose proof (sumf_nth_le _ (obj_units o) (s_heap s) q dobj H) as Hle.
+    pose proof (refs_in_nth2 o _ j j' H3 H1 H2). unfold obj_units at 1 in Hle. unfold hobj, get_obj in *. lia.
+  - pose proof (sumf_nth2_le _ (obj_units o) (s_heap s) q q' dobj H H0 E) as Hle.
+    pose proof (refs_in_nth o _ j H1). pose proof (refs_in_nth o _ j' H2). unfold obj_units at 1 2 in Hle. unfold hobj, get_obj in *. lia.
+Qed.
+
+End Inv.
